@@ -152,6 +152,13 @@ theorem map_eq_of_zip {α β : Type} (g : α → β) : ∀ (ls : List α) (xs : 
       simp only at h0
       rw [List.map_cons, h0, ih xs (by simpa using hl) (fun y hy => h y (by simp [hy]))]
 
+theorem zip_mem_of_mem {α β : Type} {ls : List α} {xs : List β} (hl : ls.length = xs.length) {l : α} (hm : l ∈ ls) :
+    ∃ x ∈ xs, (l, x) ∈ ls.zip xs := by
+  obtain ⟨k, hk, hlk⟩ := List.getElem_of_mem hm
+  refine ⟨xs[k]'(by omega), List.getElem_mem _, ?_⟩
+  rw [← hlk]
+  exact List.mem_iff_getElem.mpr ⟨k, by rw [List.length_zip]; omega, by simp⟩
+
 theorem toList_map {α β : Type} (f : α → β) (o : Option α) : (o.map f).toList = o.toList.map f := by
   cases o <;> rfl
 
